@@ -96,6 +96,10 @@ def _make_group(top, g):
             top.methods[md["ref"]] = grp[md["group"][1]]
 
 
+class MyTModule(TModule):
+    pass
+
+
 class GenModule(Elaboratable):
     """One abstract module = one `TModule`.  Methods owned by the module are created in
     `__init__`, so that `Method.owner` is this object (transactron_helpers.get_caller_class_name)."""
@@ -116,7 +120,9 @@ class GenModule(Elaboratable):
 
     # -- statements ---------------------------------------------------------------
     def build(self) -> TModule:
-        m = TModule()
+        # some modules are built from a trivial subclass of TModule (user code does that too)
+        m = MyTModule() if self.spec.get("subclass") else TModule()
+        self.top.tmodules.append(m)
         self.block(m, self.spec["block"])
         return m
 
@@ -223,6 +229,7 @@ class GenModule(Elaboratable):
         elif en is not None:
             kw["enable_call"] = top.inp(en)
         caller = Body.get()
+        n0 = len(caller.method_calls[meth]) if meth in caller.method_calls else 0
         if md["iw"] > 0:
             argv = top.inp(s["arg"]) if isinstance(s["arg"], str) else C(int(s["arg"]), md["iw"])
             if s.get("kw"):
@@ -231,7 +238,10 @@ class GenModule(Elaboratable):
                 ret = obj(m, {"d": argv}, **kw)
         else:
             ret = obj(m, **kw)
-        tup = caller.method_calls[meth][-1]
+        # the (ctrl_path, arg_rec, enable_sig) tuple this call registered; None if the real code did not
+        # register the call (then extraction reports a disagreement with the abstract design)
+        lst = caller.method_calls[meth] if meth in caller.method_calls else []
+        tup = lst[-1] if len(lst) > n0 else None
         sid = s["site"]
         w = Signal(name=f"w{sid}")
         wa = Signal(name=f"wa{sid}")
@@ -261,6 +271,7 @@ class CoreTop(Elaboratable):
         self.transactions: dict[str, Transaction] = {}
         self.bodies: dict[str, Body] = {}  # transaction name / defined method ref -> Body
         self.sites: dict[int, SiteRec] = {}
+        self.tmodules: list = []  # every TModule object created for this design
         for iid, w in design["inputs"].items():
             self.inputs[iid] = Signal(w, name=iid)
         for g in design.get("groups", []):
@@ -287,6 +298,7 @@ class CoreTop(Elaboratable):
 
     def elaborate(self, platform):
         m = TModule()
+        self.tmodules.append(m)
         for gm in self.mods:
             m.submodules[gm.name] = gm.build()
         prio = {"U": Priority.UNDEFINED, "L": Priority.LEFT, "R": Priority.RIGHT}
